@@ -28,6 +28,10 @@ class TimeoutRace(srv.SrvHarness):
                         oracles=O, bound=2, cap=150000 if quick else 1500000))
         out.append(dict(topo='single', capacity=4, gated=['A'], calls=[[[0, 2, False], [2, big, False]], [[1, 3, False]]],
                         late_call=9, oracles=O, bound=1 if quick else 2, cap=100000 if quick else 1000000))
+        # a saturated server: the only slot belongs to the request whose deadline races its result, and another request
+        # waits for that slot (it must be woken whichever way the race goes)
+        out.append(dict(topo='single', capacity=1, gated=['A'], calls=[[[0, 2, False]], [[1, big, False]]], late_call=9,
+                        oracles=O, bound=2, cap=150000 if quick else 1500000))
         # the abandoned request's late outcome is an exception
         out.append(dict(topo='single', capacity=4, gated=['A'], fail={'A': [0]}, calls=[[[0, 2, False]], [[1, big, False]]],
                         late_call=9, oracles=O, bound=2, cap=150000 if quick else 1500000))
